@@ -1,6 +1,6 @@
 (* C01 - Committed key-value state equals the sequential model.  Only statements and
    `exact`; proofs live in Store_proofs.v / Base_proofs.v. *)
-From Nomt Require Import Base Store Base_proofs Store_proofs.
+From Nomt Require Import Base Store Result Overflow BitOps Base_proofs Store_proofs Overflow_proofs BitOps_proofs.
 
 (* every key reads the last committed write to it (absent if never written or last deleted),
    for every history of commits, every key and every value *)
@@ -33,3 +33,36 @@ Example C01_example :
   get (cur (run_commits (init None) h)) k1 = Some 7%N /\
   get (cur (run_commits (init None) h)) k2 = None.
 Proof. vm_compute. split; reflexivity. Qed.
+
+(* ---- value forms: the page count computed for a multi-page value (mirror of
+   beatree/ops/overflow.rs::total_needed_pages, compared with the real function for every size in
+   [1333, 300000] and sampled sizes up to 2^29) always suffices for the value bytes plus the
+   out-of-cell page pointers, and wastes at most one page ---- *)
+Theorem C01_overflow_pages_fit : forall v,
+  let p := total_needed_pages v in
+  (v + 4 * (p - 15) <= p * 4092)%N.
+Proof. exact Overflow_proofs.total_needed_pages_fits. Qed.
+Print Assumptions C01_overflow_pages_fit.
+
+Theorem C01_overflow_pages_nearly_least : forall v,
+  let p := total_needed_pages v in
+  forall q, (q + 1 < p)%N -> ~ (v + 4 * (q - 15) <= q * 4092)%N.
+Proof. exact Overflow_proofs.total_needed_pages_least_partial. Qed.
+Print Assumptions C01_overflow_pages_nearly_least.
+
+(* ---- separators between leaves / branches (mirror of beatree/ops/bit_ops.rs::separate,
+   compared with the real function on generated key pairs): strictly above the left key, not
+   above the right key, and the shortest such bit string ---- *)
+Theorem C01_separate_spec : forall a b,
+  length a = KEY_BITS -> length b = KEY_BITS -> key_ltb a b = true ->
+  exists sep,
+    separate a b = Ok sep /\
+    length sep = KEY_BITS /\
+    key_ltb a sep = true /\
+    negb (key_ltb b sep) = true /\
+    sep = firstn (prefix_len a b + 1)%nat b ++ repeat false (KEY_BITS - (prefix_len a b + 1))%nat /\
+    separator_len sep = (prefix_len a b + 1)%nat /\
+    (forall s, length s = KEY_BITS -> key_ltb a s = true -> negb (key_ltb b s) = true ->
+               (separator_len sep <= separator_len s)%nat).
+Proof. exact BitOps_proofs.separate_spec. Qed.
+Print Assumptions C01_separate_spec.
